@@ -16,8 +16,8 @@ CONSTANT Corr        \* nodes that appear in the trace
 
 Trace == LoadTrace("trace.ndjson")
 
-VARIABLES l, st, dec, sgn, gst, viol, drift
-vars == <<l, st, dec, sgn, gst, viol, drift>>
+VARIABLES l, st, dec, sgn, gst, viol, drift, wlog
+vars == <<l, st, dec, sgn, gst, viol, drift, wlog>>
 
 Init ==
   /\ l = 1
@@ -27,6 +27,7 @@ Init ==
   /\ gst = [on |-> FALSE, round |-> 0]
   /\ viol = {}
   /\ drift = {}
+  /\ wlog = [n \in Corr |-> << >>]
 
 SeqToSet(s) == {s[i] : i \in DOMAIN s}
 
@@ -89,6 +90,7 @@ StepReset(e) ==
         \/ \E r \in Rounds : e.proposers[r + 1] # Proposer(r)
         \/ SeqToSet(e.corr) # Corr,
         [l |-> l, what |-> "run configuration differs from the spec constants (validators, powers, proposer rotation)", fields |-> << >>])
+  /\ wlog' = [n \in Corr |-> << >>]
   /\ UNCHANGED viol
 
 StepNode(e) ==
@@ -115,6 +117,10 @@ StepNode(e) ==
           \* C03: after GST no node may run more than the bound ahead of where it was
           \cup FailIf(gst.on /\ post.height = 1 /\ post.round > gst.round + e.bound,
                       [l |-> l, inv |-> "BoundedRounds", class |-> "round bound exceeded after GST"])
+     \* what receiveRoutine writes to the WAL before it handles the input: every message and timeout, but not the
+     \* peers' +2/3 claims (the reactor applies VoteSetMaj23 to the vote sets directly, consensus/reactor.go)
+     /\ wlog' = [wlog EXCEPT ![n] = IF e.m.t \in {"claim_prevote", "claim_precommit"} THEN @
+                                     ELSE Append(@, [ev |-> e.ev, m |-> e.m, peer |-> e.peer, k |-> e.k])]
      /\ UNCHANGED <<dec, gst>>
 
 \* a node that has left the modelled rounds (possible only when something is already wrong, or in very long runs): its
@@ -130,7 +136,7 @@ StepOut(e) ==
        \cup FailIf(gst.on /\ e.post.height = 1 /\ e.post.round > gst.round + e.bound,
                    [l |-> l, inv |-> "BoundedRounds", class |-> "round bound exceeded after GST"])
   /\ drift' = drift \cup FailIf(st[e.n].round <= MaxRound, [l |-> l, what |-> "node left the modelled rounds", fields |-> <<"round">>])
-  /\ UNCHANGED <<dec, sgn, gst>>
+  /\ UNCHANGED <<dec, sgn, gst, wlog>>
 
 StepDecision(e) ==
   LET n == e.n IN
@@ -143,7 +149,45 @@ StepDecision(e) ==
        \cup FailIf(e.commitFor # e.v \/ ~StrictQuorum(SumPower(SeqToSet(e.signers) \cap Vals)),
                    [l |-> l, inv |-> "DecisionCertified", class |-> "seen commit does not carry +2/3 valid precommits for the decided block"])
        \cup FailIf(st[n].decision # e.v, [l |-> l, inv |-> "StoreMatches", class |-> "stored block differs from decision"])
-  /\ UNCHANGED <<st, sgn, gst, drift>>
+  /\ UNCHANGED <<st, sgn, gst, drift, wlog>>
+
+\* ---------------------------------------------------------------- stop/start of a node (routine mode of the driver)
+\* The new State object is rebuilt by catchupReplay: every logged input is handled again, in order, from the
+\* initial state of the height; the own messages this produces are queued again.
+RECURSIVE OutToQ(_, _)
+OutToQ(me, out) ==
+  IF out = << >> THEN << >> ELSE
+  LET h == Head(out) IN
+  IF h.t = "sched" THEN OutToQ(me, Tail(out))
+  ELSE IF h.t = "proposal"
+       THEN <<[t |-> "proposal", src |-> me, r |-> h.r, v |-> h.v, pol |-> h.pol],
+              [t |-> "block", src |-> "-", r |-> -1, v |-> h.v, pol |-> -2]>> \o OutToQ(me, Tail(out))
+  ELSE <<[t |-> h.t, src |-> me, r |-> h.r, v |-> h.v, pol |-> -2]>> \o OutToQ(me, Tail(out))
+
+RECURSIVE ReplayLog(_, _, _)
+ReplayLog(n, w, acc) ==
+  IF w = << >> THEN acc ELSE
+  LET x  == Head(w)
+      s2 == IF x.ev = "Timeout" THEN HandleTimeout(n, acc.s, x.k, x.m.r) ELSE HandleMsg(n, acc.s, x.m, x.peer)
+  IN ReplayLog(n, Tail(w), [s |-> ClearOut(s2), q |-> acc.q \o OutToQ(n, s2.out)])
+
+StepRestart(e) ==
+  LET n    == e.n
+      rp   == ReplayLog(n, wlog[n], [s |-> InitNode, q |-> << >>])
+      post == ObsNode(e.post, rp.s)
+      rel  == Released(e)
+  IN /\ st' = [st EXCEPT ![n] = post]
+     /\ sgn' = [sgn EXCEPT ![n] = sgn[n] \o rel]
+     /\ drift' = drift
+          \cup FailIf(e.replayErr # "", [l |-> l, what |-> "catchupReplay failed: " \o e.replayErr, fields |-> << >>])
+          \cup FailIf(e.post.panic = "none" /\ post # rp.s, [l |-> l, what |-> "state after restart differs from the replay of the logged inputs",
+                                              fields |-> SetToSeq({f \in DOMAIN post : post[f] # rp.s[f]})])
+          \cup FailIf(e.post.panic = "none" /\ e.inq # rp.q, [l |-> l, what |-> "own messages queued after restart differ from the replay of the logged inputs", fields |-> <<"inq">>])
+     \* the signatures the replay asks for are signatures of the node like any other (C02; C04 is about the signer's side)
+     /\ viol' = viol
+          \cup SignsViol(n, sgn[n], rel, l)
+          \cup FailIf(e.post.panic # "none", [l |-> l, inv |-> "NoPanic", class |-> e.post.panic])
+     /\ UNCHANGED <<dec, gst, wlog>>
 
 \* restore a state that an earlier, already validated run has reached through the same events
 \* (runs generated from a state graph share prefixes; each distinct prefix is validated once)
@@ -153,17 +197,17 @@ StepSet(e) ==
                                                 pc |-> [r \in Rounds |-> [pm |-> {<<x[1], x[2]>> : x \in SeqToSet(e.pmc[r + 1])}]]])]
   /\ sgn' = [sgn EXCEPT ![e.n] = e.signs]
   /\ dec' = [dec EXCEPT ![e.n] = e.dec]
-  /\ UNCHANGED <<gst, viol, drift>>
+  /\ UNCHANGED <<gst, viol, drift, wlog>>
 
 \* C03: start of the synchronous suffix / verdict of the suffix executor
 StepGST(e) ==
   /\ gst' = [on |-> TRUE, round |-> LET S == {st[n].round : n \in Corr} IN CHOOSE x \in S : \A y \in S : y <= x]
-  /\ UNCHANGED <<st, dec, sgn, viol, drift>>
+  /\ UNCHANGED <<st, dec, sgn, viol, drift, wlog>>
 
 StepSyncEnd(e) ==
   /\ viol' = viol \cup FailIf(\E n \in Corr : dec[n] = Nil,
                               [l |-> l, inv |-> "Termination", class |-> "undecided after the synchronous suffix"])
-  /\ UNCHANGED <<st, dec, sgn, gst, drift>>
+  /\ UNCHANGED <<st, dec, sgn, gst, drift, wlog>>
 
 Step ==
   /\ l <= Len(Trace)
@@ -173,6 +217,7 @@ Step ==
          [] e.ev = "Set"      -> StepSet(e)
          [] e.ev = "GST"      -> StepGST(e)
          [] e.ev = "SyncEnd"  -> StepSyncEnd(e)
+         [] e.ev = "Restart"  -> StepRestart(e)
          [] OTHER             -> IF OutOfRange(e) THEN StepOut(e) ELSE StepNode(e)
   /\ l' = l + 1
 
@@ -180,7 +225,7 @@ Finish ==
   /\ l = Len(Trace) + 1
   /\ WriteVerdict("verdict.json", Len(Trace), viol, drift)
   /\ l' = l + 1
-  /\ UNCHANGED <<st, dec, sgn, gst, viol, drift>>
+  /\ UNCHANGED <<st, dec, sgn, gst, viol, drift, wlog>>
 
 Next == Step \/ Finish
 =============================================================================
